@@ -360,6 +360,16 @@ def writeBlock (s : Structure) (includeBonds : Bool) : Except Err Block := do
       pure (conn, ccb)
   pure ⟨writeSite s, conn, ccb, s.box⟩
 
+/-- `set_structure` into a block that already holds a structure (repaired): the file is only touched
+when the conversion succeeded; `atom_site` is replaced; `struct_conn` / `chem_comp_bond` are replaced
+or removed when the new structure has a `BondList` and left alone otherwise; `cell` is replaced, or
+removed when the new structure has no box. -/
+def writeInto (old : Block) (s : Structure) (includeBonds : Bool) : Except Err Block := do
+  let b ← writeBlock s includeBonds
+  pure (match s.bonds with
+    | some _ => b
+    | none => { b with conn := old.conn, ccb := old.ccb })
+
 /-! ## Reading: `get_structure` -/
 
 /-- `_filter_model`: the table is cut at the first occurrence of every distinct model number
